@@ -404,7 +404,7 @@ pub fn run(cx: &mut Ctx) {
     cx.check(
         "writers-generated-strings",
         RULE,
-        Budget { quick: 2_000_000, thorough: 60_000_000, max_len: 1500 },
+        Budget { quick: 1_200_000, thorough: 60_000_000, max_len: 1500 },
         |u, st| {
             let c = gen_string(u, max_chars);
             classify_string(&c, st);
@@ -427,7 +427,7 @@ pub fn run(cx: &mut Ctx) {
     cx.check(
         "scanner-vs-naive",
         "byte buffers 0..200 (700 thorough) bytes in six families (sparse specials, >=0x80-heavy, uniform, threshold-neighbour values, clean-then-one, signed-compare traps) x every start in 0..=len+2; expected = naive loop over b[start..] for quote/backslash/<0x20, len when start>=len",
-        Budget { quick: 3_000_000, thorough: 90_000_000, max_len: 900 },
+        Budget { quick: 2_000_000, thorough: 90_000_000, max_len: 900 },
         |u, st| {
             let (b, kind) = gen_scan_bytes(u, max_scan);
             let first = scan_model(&b, 0);
